@@ -58,6 +58,8 @@ fn target() -> Target {
 const START: [f64; 2] = [0.1, 0.2];
 
 struct Run {
+    /// failed set_position attempts before the one that succeeded (start shifted by 0.01 each)
+    init_retries: usize,
     res: RunResult,
     evals: Vec<(u64, Vec<f64>, Option<f64>, Vec<f64>)>,
     fired: Vec<u64>,
@@ -69,9 +71,11 @@ fn run(c: &Cfg, faults: &[(u64, FaultKind)]) -> Run {
     let dens = Dens::with_faults(target(), faults.to_vec()).recording();
     dens.log.borrow_mut().eval_budget = Some(100_000);
     let log = dens.log.clone();
-    let res = with_settings!(c.preset, &t, |s| run_chain(&s, dens, 7, &START, n));
+    // (a failed set_position is retried once on the same chain, as the sampler's initialisation loop does)
+    let res = with_settings!(c.preset, &t, |s| run_chain_retry(&s, dens, 7, &START, n, 1));
     let l = log.borrow();
     Run {
+        init_retries: crate::common::runner::LAST_INIT_RETRIES.with(|c| c.get()),
         res,
         evals: l.evals.clone(),
         fired: l.fired.clone(),
@@ -143,7 +147,10 @@ fn judge(c: &Cfg, faults: &[(u64, FaultKind)], r: &Run, p: &mut Partial, tag: &s
             let last = r.evals.last().map(|e| e.0).unwrap_or(0);
             let lo = if *d == 0 { n_init } else { r.res.draws[*d - 1].n_eval_after };
             let kinds: Vec<&str> = r.fired.iter().filter(|k| **k >= lo).filter_map(|k| kind_at(*k)).map(|f| f.name()).collect();
-            let oracle = if m.contains("Could not initialize state") {
+            let oracle = if kinds.is_empty() {
+                // no fault fired in this draw at all: an earlier fault left something behind
+                "draw-returns-err-although-no-fault-fired-in-it"
+            } else if m.contains("Could not initialize state") {
                 // the evaluation of the current position that re-initialises the step size after
                 // the first transformation change inside adapt()
                 "fault-at-step-size-reinit-in-adapt-makes-draw-return-err"
@@ -161,7 +168,7 @@ fn judge(c: &Cfg, faults: &[(u64, FaultKind)], r: &Run, p: &mut Partial, tag: &s
     }
 
     // ---- every returned draw is a valid earlier state ----
-    let mut prev_pos: Vec<f64> = START.to_vec();
+    let mut prev_pos: Vec<f64> = START.iter().map(|x| x + 0.01 * r.init_retries as f64).collect();
     let mut last_move: Option<usize> = None;
     let mut last_traj_fault_draw: Option<usize> = None;
     let mut lo = n_init;
